@@ -20,25 +20,25 @@ R = r'^roaring\.'
 CK = r'(arrayContainer|bitmapContainer|runContainer16)'
 
 # kernels shared by many properties
-SETUTIL = [R + r'(binarySearch|advanceUntil|union2by2|union2by2Cardinality|difference|exclusiveUnion2by2|onesidedgallopingintersect2by2\w*|localintersect2by2\w*|intersection2by2\w*|intersects2by2\w*)$']
+SETUTIL = [R + r'(binarySearch|binarySearchUntilWithBounds|binarySearchPast\w*|binarySearchUntil\w*|advanceUntil|union2by2|union2by2Cardinality|difference|exclusiveUnion2by2|onesidedgallopingintersect2by2\w*|localintersect2by2\w*|intersection2by2\w*|intersects2by2\w*)$']
 BINOPS = [R + CK + r'\.(i?and|i?or|i?xor|i?andNot|lazyI?OR|intersects|andCardinality|orCardinality)(Array|Bitmap|BitmapContainer|BitmapSurely|Run16|RunContainer16|Cardinality|ArrayCardinality|BitmapCardinality|BitmapContainerCardinality)*$',
           R + r'runContainer16\.(union|intersect|AndNotRunContainer16|inplaceIntersect|inplaceUnion|isubtract|invert|invertlastInterval|Not)$',
-          R + r'(canMerge16|haveOverlap16|have4Overlap16|mergeInterval16s|intersectInterval16s|intersectWithLeftover16|runArrayUnionToRuns|interval16\.\w+|newInterval16Range|isNonContiguousDisjoint)$',
+          R + r'runContainer16\.(findNextIntervalThatIntersectsStartingFrom|indexOfIntervalAtOrAfter|equals16)$', R + r'addHelper16\.\w+$', R + r'(canMerge16|haveOverlap16|have4Overlap16|mergeInterval16s|intersectInterval16s|intersectWithLeftover16|runArrayUnionToRuns|interval16\.\w+|newInterval16Range|isNonContiguousDisjoint)$',
           R + r'(popcnt\w*Slice\w*|_popcnt\w+|fillArray\w*)$', R + r'bitmapContainer\.fillArray$']
 CONV = [R + CK + r'\.(toArrayContainer|toBitmapContainer|toEfficientContainer\w*|loadData|clone|Clone|computeCardinality)$',
         R + r'(newArrayContainer\w*|newBitmapContainer\w*|newRunContainer16\w*|addHelper16\.storeIval)$']
-MUT = [R + CK + r'\.(iadd|iremove|iaddRange|iremoveRange|iaddReturnMinimized|iremoveReturnMinimized|inot|not|Add|removeKey)$',
+MUT = [R + CK + r'\.(iadd|iremove|iaddRange|iremoveRange|iaddReturnMinimized|iremoveReturnMinimized|inot|not|inotClose|notClose|Add|removeKey)$',
        R + r'((set|reset|flip)BitmapRange\w*|wordCardinalityForBitmapRange|fill|fillRange|highbits|lowbits|combineLoHi\d+|minOf\w+|maxOf\w+)$']
-QUERY = [R + CK + r'\.(contains|getCardinality|isEmpty|isFull|minimum|maximum|rank|selectInt|getCardinalityInRange|numberOfRuns|numIntervals|bitValue|search|searchRange|equals)$',
+QUERY = [R + CK + r'\.(contains|getCardinality|isEmpty|isFull|minimum|maximum|rank|selectInt|getCardinalityInRange|numberOfRuns|numIntervals|bitValue|search|searchRange|equals|equals16|safeMinimum|safeMaximum|fillLeastSignificant16bits)$',
          R + r'(selectBitPosition|bitmapEquals|popcntSlice\w*|_popcntSliceAVX2)$']
 RA_READ = [R + r'roaringArray\.(size|getKeyAtIndex|getContainerAtIndex|needsCopyOnWrite|binarySearch|advanceUntil|getIndex|getContainer|checkKeysSorted)$']
-RA_MUT = [R + r'roaringArray\.(setNeedsCopyOnWrite|setContainerAtIndex|replaceKeyAndContainerAtIndex|markAllAsNeedingCopyOnWrite|appendContainer|resize|clear|removeAtIndex|removeIndexRange|insertNewKeyValueAt|getWritableContainerAtIndex|cloneCopyOnWriteContainers|runOptimize|clone)$', R + r'newRoaringArray$']
+RA_MUT = [R + r'roaringArray\.(setNeedsCopyOnWrite|setContainerAtIndex|replaceKeyAndContainerAtIndex|markAllAsNeedingCopyOnWrite|appendContainer|resize|clear|removeAtIndex|removeIndexRange|insertNewKeyValueAt|getWritableContainerAtIndex|cloneCopyOnWriteContainers|runOptimize|clone|remove)$', R + r'newRoaringArray$']
 RA_OWN = [R + r'roaringArray\.(getWritableContainerAtIndex|cloneCopyOnWriteContainers|getUnionedWritableContainer|clone|appendWithoutCopy\w*|appendCopy\w*|appendCopiesUntil|appendCopiesAfter|getFastContainerAtIndex|copyOrSourceContainerAt|mergeBulk|markAllAsNeedingCopyOnWrite|setNeedsCopyOnWrite|removeIndexRange|insertNewKeyValueAt|removeAtIndex)$']
 VALID = [R + CK + r'\.validate$', R + r'roaringArray\.validate$', R + r'Bitmap\.Validate$']
 NEIGH = [R + CK + r'\.(nextValue|previousValue|nextAbsentValue|previousAbsentValue|NextSetBit|NextUnsetBit|PrevSetBit|uPrevSetBit)$']
 SIZES = [R + CK + r'\.(serializedSizeInBytes|getSizeInBytes)$', R + r'(runContainer16SerializedSizeInBytes|getSizeInBytesFromCardinality)$',
          R + r'roaringArray\.(serializedSizeInBytes|headerSize|hasRunCompression)$']
-WRITERS = [R + CK + r'\.(writeTo|asLittleEndianByteSlice)$', R + r'roaringArray\.writeTo$', R + r'wlog\.Write$',
+WRITERS = [R + CK + r'\.(writeTo|asLittleEndianByteSlice)$', R + r'roaringArray\.(writeTo|toBytes)$', R + r'Bitmap\.(WriteTo|ToBytes|MarshalBinary|ToBase64|HasRunCompression|GetSerializedSizeInBytes)$', R + r'lemma_(roundTrip|image\w+|le32bytes|epos\w+|sersum\w+)$', R + r'wlog\.Write$',
            R + r'(uint16|uint64|interval16)SliceAsByteSlice$']
 READERS = [R + r'roaringArray\.readFrom$', r'^internal\.', R + r'Bitmap\.(ReadFrom|FromBuffer|FromUnsafeBytes|UnmarshalBinary|FromBase64|MustReadFrom)$',
            R + r'byteSliceAs\w+$']
@@ -50,9 +50,9 @@ BM = lambda names: [R + r'Bitmap\.(' + names + r')$']
 PROPS = {
  'C01': dict(pats=SETUTIL + BINOPS + CONV + BM(r'And|Or|Xor|AndNot|AndCardinality|OrCardinality|Intersects|and|or|xor|andNot|lazyOR|lazyor') + [R + r'(And|Or|Xor|AndNot)$'],
              note='Set algebra at the level where representations differ: the sorted-array kernels (setutil), every container x container pairing of and/or/xor/andNot/lazyOR/intersects and their in-place and cardinality forms, the popcount and bit-extraction helpers and the representation conversions. Each contract states the exact result set as a view over 0..65535 (forall v :: member(res,v) <==> ...), well-formedness and exact cardinality.'),
- 'C02': dict(pats=MUT + CONV + RA_MUT + RA_READ + BM(r'Add|CheckedAdd|AddInt|Remove|CheckedRemove|AddRange|RemoveRange|Flip|FlipInt|Clear|RunOptimize|Clone|CloneCopyOnWriteContainers|SetCopyOnWrite|AddMany') + [R + r'NewBitmap$', R + r'lemma_bmokwf$'],
+ 'C02': dict(pats=MUT + CONV + RA_MUT + RA_READ + BM(r'Add|CheckedAdd|AddInt|Remove|CheckedRemove|AddRange|RemoveRange|Flip|FlipInt|Clear|RunOptimize|Clone|CloneCopyOnWriteContainers|SetCopyOnWrite|GetCopyOnWrite|AddMany|addwithptr') + [R + r'(NewBitmap|New)$', R + r'lemma_bmokwf$'],
              note='Point and range mutation of each container kind (iadd/iremove/iaddRange/iremoveRange/inot/not and the bit-range helpers), the chunk-table edits (insert/remove/replace/copy-on-write access) and the Bitmap-level point mutators that have contracts; each states the exact new view and the changed-flag.'),
- 'C03': dict(pats=QUERY + RA_READ + BM(r'Contains|ContainsInt|GetCardinality|IsEmpty|Minimum|Maximum|Rank|Select|CardinalityInRange|IntersectsWithInterval|Equals|ToArray|ToExistingArray|Checksum'),
+ 'C03': dict(pats=QUERY + RA_READ + BM(r'Contains|ContainsInt|GetCardinality|IsEmpty|Minimum|Maximum|Rank|Select|CardinalityInRange|IntersectsWithInterval|Equals|ToArray|ToExistingArray|toArray|Checksum'),
              note='Scalar queries of each container kind against the view (contains, cardinality, rank, select, min/max, range counts, emptiness/fullness, equality) and the chunk-table lookups; modifies-nothing frames are part of each contract.'),
  'C04': dict(pats=ITER, note='Chunk-level iteration protocols of the three container kinds (forward, reverse, many, unset) as cursors over the container view: next returns the value at the cursor and moves to the least greater member, peekNext does not move, advanceIfNeeded never moves backwards.'),
  'C05': dict(pats=SIZES + WRITERS + READERS, note='Byte accounting and error propagation of the portable format: size formulas per kind and for the table, the writers against a model writer (bytes appended, count returned, errors reported), the readers on arbitrary byte sources.'),
@@ -65,17 +65,17 @@ PROPS = {
              note='Validators characterise well-formedness (validate returns nil exactly on well-formed containers/tables), and every constructive container operation ensures well-formedness of its result (cwf/awf/bwf/rwf clauses).'),
  'C10': dict(pats=READERS + VALID + FROZEN + [r'^roaring64\.Bitmap\.(ReadFrom|FromUnsafeBytes|UnmarshalBinary|FromBase64)$'],
              note='Decoder safety with NO precondition on the bytes: every index, slice, nil, division and allocation-size obligation of the decoding paths, plus validators.'),
- 'C11': dict(pats=[R + CK + r'\.(lazyI?OR\w*|computeCardinality|resetTo|toEfficientContainer\w*|ior\w*|or\w*|iand\w*|and\w*|ixor\w*|xor\w*)$', R + r'(FastOr|FastAnd|HeapOr|HeapXor|lazyOR|lazyIOR)\w*$'] + BM(r'lazyOR|lazyor|AndAny|repairAfterLazy'),
+ 'C11': dict(pats=[R + CK + r'\.(lazyI?OR\w*|computeCardinality|resetTo|toEfficientContainer\w*|ior\w*|or\w*|iand\w*|and\w*|ixor\w*|xor\w*)$', R + r'(FastOr|FastAnd|HeapOr|HeapXor|lazyOR|lazyIOR|lazyOrOnRange|lazyIOrOnRange|parNaiveStartAt|repairAfterLazy|toBitmapContainer)\w*$', R + r'(bitmapContainerHeap|containerPriorityQueue|priorityQueue)\.\w+$', R + r'arrayContainer\.realloc$'] + BM(r'lazyOR|lazyor|AndAny|repairAfterLazy'),
              note='Kernels the sequential aggregates are folds of: lazy union kernels (deferred cardinality) and the repair pass, per container pairing.'),
- 'C13': dict(pats=FROZEN + [R + r'lemma_(tcnt|fzsum)\w+$'], note='Frozen-format reader (safety and structure) and writers where contracted.'),
+ 'C13': dict(pats=FROZEN + [R + r'lemma_(tcnt|fzsum|fz)\w+$'], note='Frozen-format reader (safety and structure) and writers where contracted.'),
  'C14': dict(pats=SIZES + [R + CK + r'\.toEfficientContainer\w*$', R + r'(BoundSerializedSizeInBytes|lemma_\w*[sS]ize\w*)$'] + BM(r'GetSerializedSizeInBytes|BoundSerializedSizeInBytes'),
              note='Size formulas per representation and the cheapest-representation choice.'),
- 'C15': dict(pats=NEIGH + SETUTIL[:1] + BM(r'NextValue|PreviousValue|NextAbsentValue|PreviousAbsentValue'), note='Neighbour queries per container kind against the view (least member >= t, greatest member <= t, and the absent variants), with the sentinel conventions the Bitmap-level callers test for.'),
+ 'C15': dict(pats=NEIGH + SETUTIL[:1] + [R + r'runContainer16\.(safeMinimum|safeMaximum)$'] + BM(r'NextValue|PreviousValue|NextAbsentValue|PreviousAbsentValue'), note='Neighbour queries per container kind against the view (least member >= t, greatest member <= t, and the absent variants), with the sentinel conventions the Bitmap-level callers test for.'),
  'C16': dict(pats=[R + CK + r'\.addOffset$', R + r'(AddOffset\w*|Flip|FromDense|FromBitSet)$'] + BM(r'ToDense|WriteDenseTo|DenseSize|FromDense|ToBitSet|FromBitSet'), note='Per-kind offset kernels and dense conversions.'),
  'C17': dict(pats=[r'^roaring64\.(?!Bitmap\.(ReadFrom|FromUnsafeBytes|UnmarshalBinary|FromBase64|WriteTo|ToBytes|MarshalBinary)$)(?!BSI|roaringArray64\.validate$|bsi)\w+(\.\w+)?$'], note='64-bit chunk table (keys, buckets, copy-on-write flags) and the Bitmap methods that have contracts.'),
  'C18': dict(pats=[r'^roaring64\.Bitmap\.(ReadFrom|FromUnsafeBytes|UnmarshalBinary|FromBase64|WriteTo|ToBytes|MarshalBinary|Validate|GetSerializedSizeInBytes)$', r'^roaring64\.roaringArray64\.(validate|checkKeysSorted|appendContainer|resize|clear)$', R + r'roaringArray\.readFrom$', r'^internal\.'],
              note='64-bit decoders (safety on arbitrary bytes, structure of the decoded table) and validators.'),
- 'C19': dict(pats=[r'^(roaring64\.BSI|bsi\.BSI|roaring64\.\w*BSI\w*|bsi\.\w*BSI\w*)\.?(\w*)$'], note='Structure-level contracts of the bit-sliced index updates.', filt='update'),
+ 'C19': dict(pats=[r'^(roaring64\.BSI|bsi\.BSI|roaring64\.\w*BSI\w*|bsi\.\w*BSI\w*)\.?(\w*)$', r'^bsi\.(ClearBits|planeChild)$', r'^roaring64\.(bsi64PlaneChild|bsi64ValueFitsBitCount)$'], note='Structure-level contracts of the bit-sliced index updates.', filt='update'),
  'C20': dict(pats=[r'^(roaring64\.BSI|bsi\.BSI)\.(Compare\w+|BatchEqual\w*|MinMax\w*|Sum\w*|Transpose\w*|IntersectAndTranspose\w*)$'], note='Structure-level contracts of the bit-sliced index queries.'),
 }
 WHY_AGG = "they use container/heap, goroutines, channels and sync.WaitGroup, which are outside the Go subset the verifier handles"
